@@ -28,8 +28,8 @@ from . import scripts as S, formats, abscheck, meta as M
 KEEP = ("ret=", "open=", "len=", "err=", "msg=", "bad-", "meta ", "CRASH", "ABORT", "TIMEOUT")
 WAVLIKE = (0x01, 0x13, 0x22)
 SETTER_FALSE = {0x10F1, 0x1400, 0x10CF, 0x10D1, 0x1101, 0x1050, 0x1200}
-KF_CHMAP = "KF-C09-CHMAP-REFUSED-KEPT"
-STATE = {"chmap_waived": False}      # set by run(): true only while the entry's witness still fails on the tree under test
+# KF-C09-CHMAP-REFUSED-KEPT is repaired (a refused SFC_SET_CHANNEL_MAP_INFO leaves no map behind): nothing is waived for it any more,
+# SF_FALSE from SFC_SET_CHANNEL_MAP_INFO is a refusal like that of every other setter (see also vlib/chmapfix.py, Sf.ChmapVerdict)
 
 
 class Ins:
@@ -50,10 +50,6 @@ def refused(ins, out):
         return ret not in ("0", None)
     if ins.kind == "cmd":
         cid = int(ins.line.split()[2], 16)
-        if cid == 0x1101 and STATE["chmap_waived"]:
-            # KF-C09-CHMAP-REFUSED-KEPT: where the container cannot store it a VALID channel map is kept and SF_FALSE returned without an
-            # error; while that finding is open such an answer is not counted as a refusal (the call stays in the base history)
-            return ret == "0" and err not in ("0", None)
         if cid in SETTER_FALSE:
             return ret == "0"
         if cid == 0x1080:
@@ -284,11 +280,6 @@ def run_driver(ctx, text):
 def run(ctx, quick=True):
     """returns True if a violation was reported"""
     rng = ctx.rng
-    STATE["chmap_waived"] = False
-    for kf in ctx.known:
-        if kf.get("id") == KF_CHMAP and kf.get("status") == "known" and ctx.witness_still_fails(kf):
-            STATE["chmap_waived"] = True
-            ctx.known_finding(kf)
     fs = [f for f in formats.writable_formats(ctx) if f.major != 0x16]
     if quick:
         # one byte-order variant (seeded) of every (container, codec) pair; the thorough tier runs them all
@@ -416,7 +407,6 @@ def replay(ctx, path):
     ch = int(abscheck.parse_kv(kv.get("c09-twin", "ch=1")).get("ch", "1"))
     ins_at = [int(x) for x in kv.get("twin-inserted", "").split(",") if x.strip()]
     must = set(int(x) for x in kv.get("twin-must", "").split(",") if x.strip())
-    STATE["chmap_waived"] = any(k.get("id") == KF_CHMAP and k.get("status") == "known" and ctx.witness_still_fails(k) for k in ctx.known)
     out = _filter(ctx.batch([("twin", "\n".join(L) + "\n")], workers=1).get("twin", []))
     bad = []
     if len(out) < len(L):
